@@ -44,6 +44,8 @@ pub struct LifeOpts {
     pub generators: bool,
     pub hooks: bool,
     pub outputs: bool,
+    /// sometimes leave a declared output out of the client's options (the action must be rejected)
+    pub drop_outputs: bool,
 }
 
 /// control-flow models + a scripted client that uses every kind of action + optional adversary
@@ -84,12 +86,12 @@ pub fn gen_lifecycle(rng: &mut Rng, o: &LifeOpts) -> Scenario {
     let has_generators = acts.iter().any(|a| matches!(a.kind, ActKind::Block { .. } | ActKind::Parallel { .. } | ActKind::Sequence { .. }));
     for a in acts.iter().filter(|a| matches!(a.kind, ActKind::Irq)) {
         let mut action = if !o.scripted_actions.is_empty() && rng.chance(o.p_scripted) { rng.pick(o.scripted_actions).to_string() } else { "complete".to_string() };
-        if has_generators && (action == "back" || action == "cancel") {
+        if has_generators && (action == "back" || action == "cancel" || action == "cancel_prev") {
             action = "complete".to_string();
         }
         let mut options = good_options(&action, Some(a), &steps, rng);
         // sometimes leave a declared output out (must be rejected) or add undeclared keys
-        if !a.outputs.is_empty() && rng.below(6) == 0 {
+        if o.drop_outputs && !a.outputs.is_empty() && rng.below(6) == 0 {
             options.remove(&a.outputs[0]);
         }
         if rng.below(5) == 0 {
